@@ -24,6 +24,7 @@ def parseAct (t : String) : Option (Option UAct) :=
   | ['y'] => some none
   | ['x'] => some none
   | 'u' :: _ :: _ => some none
+  | 't' :: _ :: _ => some none
   | 'w' :: d => (String.ofList d).toNat?.map fun v => some (.write v)
   | 'c' :: d => (String.ofList d).toNat?.map fun k => some (.cancel (if k = 0 then none else some k))
   | _ => none
@@ -96,6 +97,7 @@ def waitClass (ev : String) : String :=
 def waitsOf (script : String) : List String :=
   (script.splitOn ".").filterMap fun t => match t.toList with
     | 'u' :: d => some (waitClass (String.ofList d))
+    | 't' :: d => some ("probe-" ++ waitClass (String.ofList d))
     | _ => none
 
 def parseGw (s : String) : Option (List (Nat × String)) :=
@@ -308,7 +310,17 @@ def runLine (r : Report) (sec : Nat) (l : Line) : Report := Id.run do
   if (hr.filter (fun e => match e with | .cbegin _ _ => true | _ => false)).length ≥ 2 ∧ hr.any isCend then
     r := r.addCover "sched-cancel-after-a-completed-cancel"
   if ¬ allowedAt mapped hist res then
-    r := r.violation sec l.idx s!"outcome {resS} is not possible for the schedule that happened ({schedWhy mapped hist res}) hist={histS} op=[{opS}]"
+    -- an error that WAS passed to cancel before the return, but by a call that began after another cancel call had
+    -- returned, satisfies the property's text; it contradicts the model (cancel runs under a sync.Once:
+    -- `Props.first_cancel_wins`): reported as a broken correspondence, not as a property violation
+    let lateCancel : Bool := match res with
+      | .err (.user k) => cancelBegan (some k) hr
+      | .err .nilCancel => cancelBegan none hr
+      | _ => false
+    if lateCancel then
+      r := r.mismatch sec l.idx s!"the first completed cancel wins (sync.Once): the error of a later cancel call cannot be returned hist={histS}" resS
+    else
+      r := r.violation sec l.idx s!"outcome {resS} is not possible for the schedule that happened ({schedWhy mapped hist res}) hist={histS} op=[{opS}]"
   if noCancel c ∧ panicked > 0 ∧ ¬ isPanicRes res then
     r := r.violation sec l.idx s!"a user panic was lost: outcome {resS} although {panicked} user function(s) panicked and nothing was cancelled op=[{opS}]"
   if faultFree c then
@@ -338,8 +350,11 @@ def runLine (r : Report) (sec : Nat) (l : Line) : Report := Id.run do
           r := r.mismatch sec l.idx s!"{showRes run.api mr} (schedule {k})" resS
         if sorted fin.mapped ≠ sorted mapped then
           r := r.mismatch sec l.idx s!"mapped={showNats (sorted fin.mapped)} (schedule {k})" s!"mapped={showNats mapped}"
-        if sorted fin.reduced ≠ sorted reduced then
+        -- which values a reducer that does not range over the pipe receives depends on the schedule: only their number is fixed
+        if c.rscript.contains .readAll ∧ sorted fin.reduced ≠ sorted reduced then
           r := r.mismatch sec l.idx s!"reduced={showNats (sorted fin.reduced)} (schedule {k})" s!"reduced={showNats reduced}"
+        if ¬ c.rscript.contains .readAll ∧ fin.reduced.length ≠ reduced.length then
+          r := r.mismatch sec l.idx s!"|reduced|={fin.reduced.length} (schedule {k})" s!"reduced={showNats reduced}"
   if reproduced then r := r.addCover "outcome-reproduced-by-a-model-schedule"
   else r := r.addCover "outcome-not-among-sampled-model-schedules"
   return r
